@@ -105,7 +105,9 @@ def _run(events: list, keys: list, pa0: int, ps0: int, pa1: int, ps1: int) -> bo
 
             spawn(calls[0])
             ki = 0
-            for a in events:
+            for _i, a in enumerate(events):
+                if _PROBE is not None:
+                    _PROBE.append(_i)
                 ev = concretize(a, NE - 1)
                 trace.append(NAMES[ev])
                 if ev in (MSG_A, MSG_B):
@@ -234,6 +236,22 @@ def _run(events: list, keys: list, pa0: int, ps0: int, pa1: int, ps1: int) -> bo
         loop.shutdown()
 
 
+_PROBE = None  # set by shards() to find out natively which leading event pairs are enabled at all
+
+
+def _pair_enabled(cfg: int, e0: int, e1: int) -> bool:
+    global CFG, _PROBE
+    old = CFG
+    CFG = cfg
+    _PROBE = []
+    try:
+        _run([e0, e1, DRAIN], [1, 1, 1], 1, 1, 1, 1)
+        return max(_PROBE, default=-1) >= 2
+    finally:
+        _PROBE = None
+        CFG = old
+
+
 def h11_4(e0: int, e1: int, e2: int, e3: int, k0: int, k1: int, k2: int, k3: int, pa0: int, ps0: int, pa1: int, ps1: int) -> bool:
     """
     pre: e0 == SH0
@@ -267,6 +285,8 @@ def shards(tier: str) -> list:
                             "desc": f"predicate/type configuration {cfg}, first event {NAMES[ev]}, then 3 symbolic events; symbolic message keys and predicate parameters"})
             else:
                 for ev1 in range(NE):
+                    if not _pair_enabled(cfg, ev, ev1):
+                        continue  # the second event is not enabled after the first: nothing to explore
                     out.append({"fn": "h11_5", "env": {"CFG": cfg, "SH0": ev, "SH1": ev1}, "cond_timeout": 1500, "path_timeout": 60,
                                 "desc": f"predicate/type configuration {cfg}, events {NAMES[ev]}, {NAMES[ev1]}, then 3 symbolic events; symbolic message keys and predicate parameters"})
     return out
